@@ -20,7 +20,8 @@ TARGET = '/tmp/confirm_target'
 
 
 def sh(cmd, cwd=None, timeout=3600):
-    env = dict(os.environ, CARGO_TARGET_DIR=TARGET, CARGO_NET_OFFLINE='true', LANG='C')
+    # runs against seeded changes must not overwrite the committed evidence of the unchanged tree
+    env = dict(os.environ, CARGO_TARGET_DIR=TARGET, CARGO_NET_OFFLINE='true', LANG='C', VERIF_EVIDENCE_DIR='/tmp/seed_evidence')
     p = subprocess.run(cmd, shell=True, cwd=cwd, capture_output=True, text=True, timeout=timeout, env=env)
     return p.returncode, (p.stdout + p.stderr)
 
